@@ -648,6 +648,7 @@ fn spawn_part(comp: &str, build: &str, tier: Tier, seed: u64) -> Result<Option<P
         }
         c.output().map_err(|e| format!("cannot start {exe}: {e}"))
     };
+    let _ = std::fs::remove_file(format!("{trace_path}.ub"));
     let mut o = run_child(None)?;
     if o.status.code().is_none() {
         // killed by a signal (e.g. the code under test corrupted the heap): the single-threaded
@@ -656,9 +657,23 @@ fn spawn_part(comp: &str, build: &str, tier: Tier, seed: u64) -> Result<Option<P
         let _ = std::fs::remove_file(&out);
         o = run_child(Some("1"))?;
     }
-    if o.status.code().is_none() && comp.starts_with("C14") {
-        // still killed: for the memory-safety components that is the finding. The trace file holds
-        // the index of the run that was executing.
+    let ub_path = format!("{trace_path}.ub");
+    let ub_marker = std::fs::read_to_string(&ub_path).ok();
+    let _ = std::fs::remove_file(&ub_path);
+    // Still killed. For the memory-safety components that is the finding; for every component it
+    // is one if the process aborted in a debug check of an unsafe precondition located in the code
+    // under test (marker written by the panic hook). The trace file holds the index of the run
+    // that was executing.
+    let crash_check: Option<String> = if o.status.code().is_some() {
+        None
+    } else if comp.starts_with("C14") {
+        Some("C14.crash".to_string())
+    } else if ub_marker.is_some() {
+        hang_check(comp).map(|h| format!("{}.crash", h.trim_end_matches(".hang")))
+    } else {
+        None
+    };
+    if let Some(crash_check) = crash_check {
         let run = std::fs::read_to_string(&trace_path)
             .ok()
             .and_then(|t| t.trim().parse::<u64>().ok());
@@ -667,7 +682,7 @@ fn spawn_part(comp: &str, build: &str, tier: Tier, seed: u64) -> Result<Option<P
             let _ = std::fs::create_dir_all(format!("{VD}/replays"));
             let tag = format!("{comp}/{}", match build { "simdbg" => "dbg", "simnat" => "nat", _ => "rel" });
             let st = Command::new(&exe)
-                .args(["case-file", comp, &run.to_string(), &seed.to_string(), &tag, "C14.crash", build, &path])
+                .args(["case-file", comp, &run.to_string(), &seed.to_string(), &tag, &crash_check, build, &path])
                 .env("VERIF_CASE_TIER", tier.name())
                 .status();
             if matches!(st, Ok(s) if s.success()) {
@@ -675,8 +690,14 @@ fn spawn_part(comp: &str, build: &str, tier: Tier, seed: u64) -> Result<Option<P
                 kv.put("evaluations", run + 1);
                 kv.put("found", 1);
                 kv.put("found.0.replay", &path);
-                kv.put("found.0.check", "C14.crash");
-                kv.put("found.0.signature", "the process is killed by a signal (memory corruption) while executing this history");
+                kv.put("found.0.check", &crash_check);
+                kv.put(
+                    "found.0.signature",
+                    match &ub_marker {
+                        Some(m) => format!("the process aborts in a debug check of an unsafe precondition inside the code under test: {m}"),
+                        None => "the process is killed by a signal (memory corruption) while executing this history".to_string(),
+                    },
+                );
                 kv.put("found.0.detail", format!("single-worker run died in run {run}; case regenerated from (seed, run)"));
                 return Ok(Some(Part { kv }));
             }
@@ -859,7 +880,7 @@ fn cmd_check(property: &str, tier: Tier) -> i32 {
                 match st {
                     Ok(o)
                         if o.status.code() == Some(1)
-                            || (check == "C14.crash" && o.status.code() != Some(0)) =>
+                            || (check.ends_with(".crash") && o.status.code() != Some(0)) =>
                     {
                         println!("  violation check={check} build={build}: {sig}\n    {detail}");
                         println!("VIOLATION property={property} replay={path}");
@@ -1266,10 +1287,10 @@ fn main() {
             let comp = args[2].clone();
             let check: &'static str = match hang_check(&comp) {
                 Some(c) if c == args[6] => c,
-                _ if args[6] == "C14.crash" => "C14.crash",
+                _ if args[6].ends_with(".crash") => Box::leak(args[6].clone().into_boxed_str()),
                 _ => "hang",
             };
-            dispatch!(comp.as_str(), p => case_file(p, run, seed, &args[5], check, &args[7], if check == "C14.crash" { "the process is killed by a signal while executing this history" } else { "the run does not terminate" }, &args[8]));
+            dispatch!(comp.as_str(), p => case_file(p, run, seed, &args[5], check, &args[7], if check.ends_with(".crash") { "the process is killed by a signal while executing this history" } else { "the run does not terminate" }, &args[8]));
             0
         }
         Some("miri-noop") => {
